@@ -1,7 +1,7 @@
 """C05 - G1/G2 point arithmetic is the group law (partial claim: exceptional-case guards)."""
 from .. import guards, formulas
 
-EXPL = ('(R-POLY) The general-case formulas ARE decided for all inputs at once by algebraic value numbering over the '
+EXPL = ('(R-GUARD/G8) Projective::equal: no decision depends on the x/y coordinates of an operand that is not known to be non-identity (the identity has many representations (x,y,0)); Affine::equal has the truth table \'both infinite, or both finite with equal coordinates\'. (R-POLY) The general-case formulas ARE decided for all inputs at once by algebraic value numbering over the '
         'polynomial ring in the operands\' Jacobian coordinates: Projective::multiply2 equals the tangent rule and both '
         'Projective::add overloads (projective and mixed) equal the chord rule on the affine images (X/Z^2, Y/Z^3), as '
         'cross-multiplied polynomial identities, for G1 (coordinates in Fq) and G2 (coordinates in the ring Fq2, whose '
@@ -18,7 +18,7 @@ EXPL = ('(R-POLY) The general-case formulas ARE decided for all inputs at once b
 def run(ctx):
     ctx.explanation = EXPL
     ctx.level = 'other'
-    ctx.assumptions = ['formula correctness is not decided']
+    ctx.assumptions = ['scalar recoding and curve membership of results as values are not decided']
     for cfg, prog in ctx.programs().items():
         guards.g4_projective_add(ctx, cfg, prog)
         guards.g5_conversions(ctx, cfg, prog)
